@@ -212,6 +212,102 @@ Proof.
   split; [exact ex_g2_diag|exact ex_solve_basic].
 Qed.
 
+(* ---- the same two solves at the PRIMITIVE-FLOAT instance (IEEE binary64, u = 2^-53), through Flocq ----
+   No hypothesis about rounding remains.  The side conditions are about computable values: the answer is finite,
+   the diagonal is nonzero, no product m_kj * x_j and no quotient racc/m_kk falls into the underflow range
+   ([racc m b x k n] = ((b_k - m_{k,k+1} x_{k+1}) - ...) - m_{k,n-1} x_{n-1}, the accumulated value of row k as the
+   code forms it: Proofs/RoundTrace.v proves  x_k = racc / m_kk  for backsolve over ANY arithmetic).
+   Unproved remainder: subnormal products/quotients, overflow, and the factorisation (as above). *)
+From Coq Require Import Floats.
+From OV Require Import Inst.FloatInst Proofs.ComplexRound Proofs.RoundDotFloat Proofs.RoundTrace Proofs.RoundTriFloat.
+
+Theorem backsolve_backward_error_float : forall (m : matrix AF) (b x : list PrimFloat.float),
+  Proofs.Matrix.wf m -> rows m = cols m -> length b = rows m -> (INR (rows m) * u64 < 1)%R ->
+  backsolve (A := AF) m b = Ok x ->
+  (forall k, (k < rows m)%nat -> ffinite (nth k x 0%float) /\ fentry m k k <> 0%R) ->
+  (forall k j, (k < j)%nat -> (j < rows m)%nat -> no_underflow (fentry m k j * FR (nth j x 0%float))%R) ->
+  (forall k, (k < rows m)%nat -> no_underflow (FR (racc (A := AF) m b x k (rows m)) / fentry m k k)%R) ->
+  length x = rows m /\
+  exists dU : nat -> nat -> R,
+    (forall i j, (i < rows m)%nat -> (j < rows m)%nat ->
+       (Rabs (dU i j) <= g64 (rows m) * Rabs (triu Fadd Fsub Fmul Fdiv (mFR m) i j))%R) /\
+    forall i, (i < rows m)%nat ->
+      Rsum (rows m) (fun j => ((triu Fadd Fsub Fmul Fdiv (mFR m) i j + dU i j) * FR (nth j x 0%float))%R)
+      = FR (nth i b 0%float).
+Proof. exact backsolve_backward_error_float_lemma. Qed.
+Check backsolve_backward_error_float : forall (m : matrix AF) (b x : list PrimFloat.float),
+  Proofs.Matrix.wf m -> rows m = cols m -> length b = rows m -> (INR (rows m) * u64 < 1)%R ->
+  backsolve (A := AF) m b = Ok x ->
+  (forall k, (k < rows m)%nat -> ffinite (nth k x 0%float) /\ fentry m k k <> 0%R) ->
+  (forall k j, (k < j)%nat -> (j < rows m)%nat -> no_underflow (fentry m k j * FR (nth j x 0%float))%R) ->
+  (forall k, (k < rows m)%nat -> no_underflow (FR (racc (A := AF) m b x k (rows m)) / fentry m k k)%R) ->
+  length x = rows m /\
+  exists dU : nat -> nat -> R,
+    (forall i j, (i < rows m)%nat -> (j < rows m)%nat ->
+       (Rabs (dU i j) <= g64 (rows m) * Rabs (triu Fadd Fsub Fmul Fdiv (mFR m) i j))%R) /\
+    forall i, (i < rows m)%nat ->
+      Rsum (rows m) (fun j => ((triu Fadd Fsub Fmul Fdiv (mFR m) i j + dU i j) * FR (nth j x 0%float))%R)
+      = FR (nth i b 0%float).
+Print Assumptions backsolve_backward_error_float.
+(* [[2,1],[0,3]] x = [1,1] in binary64: x_1 = fl(1/3) and x_0 = fl(fl(1 - fl(1/3))/2) are inexact *)
+Example backsolve_backward_error_float_nonvacuous :
+  Proofs.Matrix.wf exf_m /\ rows exf_m = cols exf_m /\ length exf_b = rows exf_m /\ (INR (rows exf_m) * u64 < 1)%R /\
+  backsolve (A := AF) exf_m exf_b = Ok exf_x /\
+  (forall k, (k < rows exf_m)%nat -> ffinite (nth k exf_x 0%float) /\ fentry exf_m k k <> 0%R) /\
+  (forall k j, (k < j)%nat -> (j < rows exf_m)%nat -> no_underflow (fentry exf_m k j * FR (nth j exf_x 0%float))%R) /\
+  (forall k, (k < rows exf_m)%nat ->
+     no_underflow (FR (racc (A := AF) exf_m exf_b exf_x k (rows exf_m)) / fentry exf_m k k)%R).
+Proof.
+  split; [reflexivity|]. split; [reflexivity|]. split; [reflexivity|].
+  split; [cbn [exf_m rows INR]; pose proof u64_small; lra|]. split; [exact exf_backsolve|exact exf_conditions].
+Qed.
+
+Theorem fwdsolve_backward_error_float : forall (m : matrix AF) (b y : list PrimFloat.float),
+  Proofs.Matrix.wf m -> rows m = cols m -> length b = rows m -> (INR (rows m) * u64 < 1)%R ->
+  Proofs.LUSolve.fwd_loop (A := AF) m b = Ok y ->
+  (forall i, (i < rows m)%nat -> ffinite (nth i y 0%float)) ->
+  (forall i j, (j < i)%nat -> (i < rows m)%nat -> no_underflow (fentry m i j * FR (nth j y 0%float))%R) ->
+  length y = rows m /\
+  exists dL : nat -> nat -> R,
+    (forall i j, (i < rows m)%nat -> (j < rows m)%nat ->
+       (Rabs (dL i j) <= g64 (rows m) * Rabs (tril1 Fadd Fsub Fmul Fdiv (mFR m) i j))%R) /\
+    forall i, (i < rows m)%nat ->
+      Rsum (rows m) (fun j => ((tril1 Fadd Fsub Fmul Fdiv (mFR m) i j + dL i j) * FR (nth j y 0%float))%R)
+      = FR (nth i b 0%float).
+Proof. exact fwdsolve_backward_error_float_lemma. Qed.
+Check fwdsolve_backward_error_float : forall (m : matrix AF) (b y : list PrimFloat.float),
+  Proofs.Matrix.wf m -> rows m = cols m -> length b = rows m -> (INR (rows m) * u64 < 1)%R ->
+  Proofs.LUSolve.fwd_loop (A := AF) m b = Ok y ->
+  (forall i, (i < rows m)%nat -> ffinite (nth i y 0%float)) ->
+  (forall i j, (j < i)%nat -> (i < rows m)%nat -> no_underflow (fentry m i j * FR (nth j y 0%float))%R) ->
+  length y = rows m /\
+  exists dL : nat -> nat -> R,
+    (forall i j, (i < rows m)%nat -> (j < rows m)%nat ->
+       (Rabs (dL i j) <= g64 (rows m) * Rabs (tril1 Fadd Fsub Fmul Fdiv (mFR m) i j))%R) /\
+    forall i, (i < rows m)%nat ->
+      Rsum (rows m) (fun j => ((tril1 Fadd Fsub Fmul Fdiv (mFR m) i j + dL i j) * FR (nth j y 0%float))%R)
+      = FR (nth i b 0%float).
+Print Assumptions fwdsolve_backward_error_float.
+(* unit lower triangle of [[1,0],[0x1.999999999999ap-4,1]] (the double nearest 0.1): y_1 = fl(1 - 0.1) is inexact *)
+Example fwdsolve_backward_error_float_nonvacuous :
+  let m := @mkM AF [1%float; 0%float; 0x1.999999999999ap-4%float; 1%float] 2 2 in
+  let b := [1%float; 1%float] in
+  Proofs.Matrix.wf m /\ rows m = cols m /\ length b = rows m /\ (INR (rows m) * u64 < 1)%R /\
+  exists y, Proofs.LUSolve.fwd_loop (A := AF) m b = Ok y /\
+    (forall i, (i < rows m)%nat -> ffinite (nth i y 0%float)) /\
+    (forall i j, (j < i)%nat -> (i < rows m)%nat -> no_underflow (fentry m i j * FR (nth j y 0%float))%R).
+Proof.
+  cbn zeta. split; [reflexivity|]. split; [reflexivity|]. split; [reflexivity|].
+  split; [cbn [rows INR]; pose proof u64_small; lra|].
+  exists [1%float; (1 - 0x1.999999999999ap-4 * 1)%float]. split; [vm_compute; reflexivity|]. split.
+  - intros [|[|i]] Hi; cbn in Hi; try lia; apply ffinite_SF; reflexivity.
+  - intros [|[|i]] [|j] Hji Hi; cbn in Hi; try lia.
+    unfold fentry; cbn [nth buf cols Nat.mul Nat.add].
+    assert (E1 : FR 1%float = 1%R) by fr_eval.
+    assert (Ea : (/ 16 <= FR 0x1.999999999999ap-4%float)%R) by fr_eval.
+    rewrite E1. apply no_underflow_ge_small. rewrite Rabs_pos_eq; lra.
+Qed.
+
 (* ---------- Props/pending/C03_round.v.txt ---------- *)
 (* ======================================================================================================
    C03 (dense matrix algebra), rounding half -- package round.  Append to Props/C03.v.
